@@ -12,7 +12,7 @@ LEVEL = 'exploration'
 EXHAUSTIVE = {}
 RULE = ('Hypothesis-generated canonical ER7 text built from the version tables (segment lines for every real segment '
         'of every version, single fields, single components, whole messages with find_groups off over arbitrary '
-        'segment sequences and with find_groups on over generated structure instances); oracle: parse_X(text).to_er7() '
+        'segment sequences, with find_groups on over generated structure instances, and over instances with Z-/foreign segments inserted inside groups); oracle: parse_X(text).to_er7() '
         '== text, differences located with an independent reference splitter. Non-trivial = the text contains a '
         'repetition, component or sub-component separator, an escape sequence or a non-default delimiter set; '
         'distinct by hash of (entry point, version, find_groups, text).')
@@ -137,7 +137,7 @@ def component_cases(draw, versions):
 
 @st.composite
 def flat_message_cases(draw, versions):
-    """MSH + arbitrary segment lines of the version, any order; find_groups off"""
+    """MSH + arbitrary segment lines of the version (in or out of the declared structure), any order; find_groups on or off"""
     v = draw(st.sampled_from(versions))
     ec = draw(S.delimiter_sets(v, message_level=True, default_weight=5))
     name = draw(st.sampled_from(T.messages(v)))
@@ -145,8 +145,8 @@ def flat_message_cases(draw, versions):
     segs = [s for s in T.segments(v) if s != 'MSH']
     for _ in range(draw(st.integers(0, 5))):
         lines.append(draw(S.segment_line(v, draw(st.sampled_from(segs)), ec)))
-    return {'level': 'message', 'v': v, 'find_groups': False, 'text': '\r'.join(lines), 'ec': None,
-            'mec': {k: ec[k] for k in ec if k not in ('SEGMENT', 'GROUP')}}
+    return {'level': 'message', 'v': v, 'find_groups': draw(st.booleans()), 'text': '\r'.join(lines), 'ec': None,
+            'mec': {k: ec[k] for k in ec if k not in ('SEGMENT', 'GROUP')}, 'arbitrary_order': True}
 
 
 @st.composite
@@ -160,12 +160,32 @@ def grouped_message_cases(draw, cells):
             'ec': None, 'mec': {k: ec[k] for k in ec if k not in ('SEGMENT', 'GROUP')}, 'structure': m}
 
 
+@st.composite
+def intruded_message_cases(draw, cells):
+    """an instance of the declared structure with one to three lines that the structure does not list (a Z segment or a
+    real segment of the version) inserted at arbitrary places - inside groups too; find_groups on or off"""
+    base = draw(grouped_message_cases(cells))
+    v = base['v']
+    ec = R.full(base['mec'])
+    lines = base['text'].split('\r')
+    inside = set(T.name_places(T.message_ref(v, base['structure'])))
+    foreign = [s for s in T.segments(v) if s not in inside and s != 'MSH']
+    for _ in range(draw(st.integers(1, 3))):
+        if foreign and draw(st.booleans()):
+            line = draw(S.segment_line(v, draw(st.sampled_from(foreign)), ec, p_fill=2))
+        else:
+            line = R.enc_segment(draw(st.sampled_from(['ZXX', 'ZA1'])), {1: draw(S.textual_leaf(v, ec, 1)), 3: draw(S.textual_leaf(v, ec, 2))}, ec)
+        lines.insert(draw(st.integers(1, len(lines))), line)
+    base.update(text='\r'.join(lines), find_groups=draw(st.integers(0, 3)) > 0, arbitrary_order=True)
+    return base
+
+
 def _run(case, acc):
     v = case['v']
     ec = case.get('ec') or case.get('mec')
     ecx = R.full(ec) if ec else S.default_ec(v)
     nt = _nontrivial(case['text'], ecx, v)
-    label = case['level'] + (':fg=%s' % case['find_groups'] if case['level'] == 'message' else '')
+    label = case['level'] + (':fg=%s%s' % (case['find_groups'], ':any-order' if case.get('arbitrary_order') else '') if case['level'] == 'message' else '')
     acc.case(h([case['level'], v, case.get('find_groups'), case['text'], case.get('ec') is not None]), nt,
              sample=case, label=label)
     if not _is_default(v, ecx):
@@ -193,6 +213,8 @@ def run_shard(shard, acc):
         hyp_collect(acc, flat_message_cases(shard['versions']), _run, seed, n, shrink, deadline=dl)
     elif kind == 'grouped':
         hyp_collect(acc, grouped_message_cases([tuple(c) for c in shard['cells']]), _run, seed, n, shrink, deadline=dl)
+    elif kind == 'intruded':
+        hyp_collect(acc, intruded_message_cases([tuple(c) for c in shard['cells']]), _run, seed, n, shrink, deadline=dl)
     # fold per-cell counters into one number to keep the evidence small
     cells = [k for k in acc.extra if k.startswith('cell:')]
     acc.extra['segment_cells_reached_in_shard'] += len(cells)
@@ -222,6 +244,8 @@ def plan(tier, seed):
             shards.append({'kind': 'flat', 'versions': T.VERSIONS, 'seed': seed * 100 + 40 + k, 'n': 150, 'shrink': False})
         for k in range(4):
             shards.append({'kind': 'grouped', 'cells': mcells[k::4], 'seed': seed * 100 + 50 + k, 'n': 120, 'shrink': False})
+        for k in range(3):
+            shards.append({'kind': 'intruded', 'cells': mcells[k::3], 'seed': seed * 100 + 60 + k, 'n': 120, 'shrink': False})
     else:
         n = 64
         for k in range(n):
@@ -238,5 +262,8 @@ def plan(tier, seed):
                            'shrink': True, 'budget': 900})
         for k in range(16):
             shards.append({'kind': 'grouped', 'cells': mcells[k::16], 'seed': seed * 1000 + 400 + k, 'n': 300,
+                           'shrink': True, 'budget': 900})
+        for k in range(8):
+            shards.append({'kind': 'intruded', 'cells': mcells[k::8], 'seed': seed * 1000 + 500 + k, 'n': 300,
                            'shrink': True, 'budget': 900})
     return shards
